@@ -60,6 +60,32 @@ def identity(ctx: Ctx):
     m = ctx.repo.lookup(ci, "_calc_var")
     body = SUMMARIZER.summarize(m.node)
     where = f"{MM}::_ProportionVariances._calc_var"
+    # the ROLE of each parameter is what the caller passes for it (whatever the parameter is called): the proportions,
+    # the total / positive / ignored / negative counts
+    from ..stmts import resolver
+
+    roles = {"proportion": "p", "total": "Nt", "positive": "Np", "ignored": "Ni", "negative": "Nn"}
+    params = [a.arg for a in m.node.args.args if a.arg not in ("self", "cls")]
+    rename = {}
+    bl = ctx.repo.lookup(ci, "blocks")
+    if bl is not None:
+        res = resolver(bl.node)
+        for c in ast.walk(bl.node):
+            if isinstance(c, ast.Call) and u(c.func) == "self._calc_var":
+                bound = list(zip(params, c.args)) + [(k.arg, k.value) for k in c.keywords if k.arg]
+                for pn, a in bound:
+                    t = u(res(a))
+                    hit = [r for key, r in roles.items() if key in t]
+                    if len(hit) == 1:
+                        rename.setdefault(pn, hit[0])
+                break
+    if sorted(rename.values()) != sorted(roles.values()):
+        if set(params) != set(roles.values()):
+            ctx.undecided("variance-identity", where, f"the roles of the parameters {params} could not be read from the call site", "p, Nt, Np, Ni, Nn")
+            return
+        rename = {x: x for x in params}
+    body = _Sub({k: ast.Name(id="__role_" + v, ctx=ast.Load()) for k, v in rename.items()}).visit(copy.deepcopy(body))
+    body = _Sub({"__role_" + v: ast.Name(id=v, ctx=ast.Load()) for v in roles.values()}).visit(body)
     sub = _Sub({"p": ast.parse("(Np-Nn)/Nt", mode="eval").body, "Ni": ast.parse("Nt-Np-Nn", mode="eval").body}).visit(copy.deepcopy(body))
     v, cnf, snf, _ = equal(sub, "(Np+Nn)/Nt - ((Np-Nn)/Nt)**2")
     ctx.ob("variance-identity", where + " [p:=(Np-Nn)/Nt, Ni:=Nt-Np-Nn]", cnf, snf, v, "three-term formula == variance of the +1/-1/0 indicator among the base")
